@@ -745,4 +745,144 @@ theorem toEntry_okT {env : Env} {F : Frame} (hC : ClosedT env F) (fuel : Nat) : 
       toEntryBody_shape3 _ _ _ _ _ _ _ _, this.2.2⟩
 
 
+/-! ### relations between the conversion state before and after a call -/
+
+/-- A relation between the state a call of `toEntry` starts from and the state it returns, which
+may depend on the `visiting` list of the call. -/
+structure RelFrame (env : Env) where
+  R : List NodeId → TState → TState → Prop
+  refl : ∀ v st, R v st st
+  trans : ∀ v a b c, R v a b → R v b c → R v a c
+  /-- a nested call is made with a longer `visiting` list -/
+  weaken : ∀ v x a b, R (x :: v) a b → R v a b
+  merged : ∀ v (st : TState) m, R v st { st with merged := m }
+  gcache : ∀ v (st : TState) x, R v st { st with gcache := st.gcache ++ [x] }
+  augs : ∀ v (st : TState) x, R v st { st with augs := st.augs ++ [x] }
+  /-- a (sub)module that was not in the cache and is not being converted files its entry -/
+  cache : ∀ root scope n v (st st1 : TState) e, InvT env root scope n → isModKw n = true →
+    st.cache.find? (·.1 == root.seq) = none → v.contains (nodeId root n) = false →
+    R (nodeId root n :: v) st st1 → R v st { st1 with cache := st1.cache ++ [(root.seq, e)] }
+
+def RecRel {env : Env} (F : RelFrame env) (rec : Rec) : Prop :=
+  ∀ root scope n visiting st, InvT env root scope n → F.R visiting st (rec root scope n visiting st).2
+
+section Rel
+variable {env : Env} (F : RelFrame env) {rec : Rec} (hrec : RecRel F rec)
+  (root : Mod) (scope : List Stmt) (n : Stmt) (visiting : List NodeId) (inv : InvT env root scope n)
+include hrec inv
+
+theorem stepFn_rel (isMod : Bool) (acc : Entry × TState) (f : String) :
+    F.R visiting acc.2 (stepFn env rec root n (n :: scope) visiting isMod acc f).2 := by
+  obtain ⟨e, st⟩ := acc
+  have fold : ∀ {β : Type} (kw : String) (hk : kw ≠ "module" ∧ kw ≠ "submodule") (g : β × TState → Stmt → β × TState) (b : β),
+      (∀ acc c, c ∈ n.all kw → (g acc c).2 = (rec root (n :: scope) c visiting acc.2).2) →
+      F.R visiting st ((n.all kw).foldl g (b, st)).2 := by
+    intro β kw hk g b hg
+    refine foldl_inv (fun acc : β × TState => F.R visiting st acc.2) _ _ _ (F.refl _ _) ?_
+    intro acc c hc hacc
+    rw [hg acc c hc]
+    exact F.trans _ _ _ _ hacc (hrec root (n :: scope) c visiting acc.2 (inv.all kw hk hc))
+  unfold stepFn
+  dsimp only
+  split
+  all_goals try dsimp only
+  all_goals first
+    | exact F.refl _ _
+    | (unfold addAllFn; exact fold _ (by decide) _ e (fun _ _ _ => rfl))
+    | exact fold _ (by decide) _ e (fun _ _ _ => rfl)
+    | skip
+  -- input
+  case h_18 =>
+    split
+    · exact F.refl _ _
+    · rename_i i hi
+      exact hrec root (n :: scope) i visiting st (inv.one "input" (by decide) hi)
+  case h_19 =>
+    split
+    · exact F.refl _ _
+    · rename_i o ho
+      exact hrec root (n :: scope) o visiting st (inv.one "output" (by decide) ho)
+  -- include
+  case h_20 =>
+    refine foldl_inv (fun acc : Entry × TState => F.R visiting st acc.2) _ _ _ (F.refl _ _) ?_
+    rintro ⟨e', st'⟩ a _ hacc
+    dsimp only at hacc ⊢
+    repeat' split
+    all_goals first
+      | exact hacc
+      | (rename_i im him _ _ _
+         exact F.trans _ _ _ _ hacc (F.trans _ _ _ _ (F.merged _ _ _) (hrec im [] im.stmt visiting _ (InvT.include_ him))))
+  case h_23 =>
+    split
+    · exact F.refl _ _
+    · split <;> exact F.refl _ _
+  case h_24 => split <;> exact F.refl _ _
+  case h_26 => split <;> exact F.refl _ _
+  case h_27 => split <;> exact F.refl _ _
+  case h_28 =>
+    split
+    · exact F.refl _ _
+    · exact F.trans _ _ _ _ (fold "augment" (by decide) _ [] (fun _ _ _ => rfl)) (F.augs _ _ _)
+
+theorem steps_rel (isMod : Bool) (l : List String) (acc : Entry × TState) :
+    F.R visiting acc.2 (l.foldl (stepFn env rec root n (n :: scope) visiting isMod) acc).2 := by
+  refine foldl_inv (fun a : Entry × TState => F.R visiting acc.2 a.2) _ _ _ (F.refl _ _) ?_
+  intro b f _ hb
+  exact F.trans _ _ _ _ hb (stepFn_rel F hrec root scope n visiting inv isMod b f)
+
+end Rel
+
+theorem toEntryBody_rel {env : Env} (F : RelFrame env) {rec : Rec} (hrec : RecRel F rec)
+    (root : Mod) (scope : List Stmt) (n : Stmt) (visiting : List NodeId) (inv : InvT env root scope n)
+    (fuel : Nat) (st : TState) : F.R visiting st (toEntryBody env fuel rec root scope n visiting st).2 := by
+  unfold toEntryBody
+  dsimp only
+  split
+  · exact F.refl _ _
+  · rename_i hmiss
+    split
+    · exact F.refl _ _
+    · split
+      · exact F.refl _ _
+      · rename_i hcyc
+        split
+        · exact F.refl _ _
+        · split
+          · exact F.refl _ _
+          · split
+            · split
+              · exact F.refl _ _
+              · rename_i g groot gscope hfg
+                by_cases ht : ((n.kw == "module" || n.kw == "submodule") || n.kw == "grouping") = true
+                · simp only [ht, if_true]
+                  exact F.weaken _ _ _ _ (hrec groot gscope g _ st (inv.uses hfg))
+                · simp only [ht, if_false]
+                  exact hrec groot gscope g _ st (inv.uses hfg)
+            · unfold dirBody
+              dsimp only
+              by_cases hm : (n.kw == "module" || n.kw == "submodule") = true
+              · simp only [hm, if_true, Bool.true_or]
+                have hmiss' : st.cache.find? (·.1 == root.seq) = none := by simpa [hm] using hmiss
+                have hc : visiting.contains (nodeId root n) = false := by
+                  cases h : visiting.contains (nodeId root n)
+                  · rfl
+                  · exact absurd (by rw [h, hm]; rfl) hcyc
+                exact F.cache root scope n visiting st _ _ inv hm hmiss' hc
+                  (steps_rel F hrec root scope n (nodeId root n :: visiting) inv true (fieldOrder n.kw) (e0 root n, st))
+              · simp only [hm, Bool.false_eq_true, if_false, Bool.false_or]
+                by_cases hg : (n.kw == "grouping") = true
+                · simp only [hg, if_true]
+                  exact F.trans _ _ _ _ (F.weaken _ _ _ _
+                    (steps_rel F hrec root scope n (nodeId root n :: visiting) inv false (fieldOrder n.kw) (e0 root n, st))) (F.gcache _ _ _)
+                · simp only [hg, Bool.false_eq_true, if_false]
+                  exact steps_rel F hrec root scope n visiting inv false (fieldOrder n.kw) (e0 root n, st)
+
+theorem toEntry_rel {env : Env} (F : RelFrame env) (fuel : Nat) : RecRel F (toEntry env fuel) := by
+  induction fuel with
+  | zero => intro root scope n visiting st _; exact F.refl _ _
+  | succ fuel ih =>
+    intro root scope n visiting st inv
+    rw [toEntry_succ]
+    exact toEntryBody_rel F ih root scope n visiting inv fuel st
+
 end Goyang.Lemmas.Bridge
